@@ -33,7 +33,8 @@ def run(R):
                   "driven transfer paths: bank MsgSend, bank MsgMultiSend, custody MsgSend (with and without custody settings), tokens MsgEthereumTx NativeSend (raw EIP-155 transactions from Ethereum-style accounts); custody release / ethereum Relay / recovery rotation / collectives are in the table but not driven",
                   "fee admission / deduction / signature decorators modelled in Model/Fees.v and validated by the differential run",
                   "no axioms: every theorem of Properties/C14.v is closed under the global context"]
-    R.assume += ["'another account' = user-to-user transfers (bank send / multi-send, custody send without custody settings); deposits into module escrow are not checked",
+    R.assume += ["the freeze lists are configured directly for most cases and, in the governance cases, changed through the REAL TokensWhiteBlackChange proposal handler (Apply) before the transaction; voting / enactment of the proposal is C08's matter; removal ('fast remove') is modelled and validated differentially, its set-level lemma is not proved",
+                 "'another account' = user-to-user transfers (bank send / multi-send, custody send without custody settings); deposits into module escrow are not checked",
                  "custody records of signers have UsePassword / UseWhiteList / UseLimits off; crypto is an input of the model"]
     R.gen("gen_ante", "AnteChain.v")
     R.gen("gen_transfers", "TransferSites.v")
@@ -52,7 +53,7 @@ def run(R):
         report(R, viol, cases)
         R.samples = [cases[0], cases[len(cases) // 2], cases[-1]]
         R.coverage.update({"traces_validated_against_impl": total, "input_distribution": json.load(open(os.path.join(out, "dist.json"))),
-                           "rule": "a case is one signed transaction (1-3 messages of 7 kinds) through the real ante handler under a random freeze / whitelist / validator-count / allowed-list configuration; systematic sweep kind x position x denomination x weak/healthy"})
+                           "rule": "a case is one signed transaction (1-3 messages of 7 kinds) through the real ante handler under a random freeze / whitelist / validator-count / allowed-list configuration; systematic sweeps: kind x position x denomination x weak/healthy; coin sets of 1-3 denominations; freeze matrix; add/remove x blacklist/whitelist proposals with already-listed + new tokens in every order, duplicates, native token, empty list"})
     if R.broken and not R.violations:
         for s in range(100, 104):
             o2 = observe(R, 3000, seed=R.seed + s)
